@@ -226,7 +226,17 @@ def handler (prop : String) (wrong : Bool) : Handler DState where
     | _ =>
       match st.m with
       | .none => (st, .bad "op before new")
-      | .dead => (st, .ok)
+      | .dead =>
+        -- the model has stopped: only the checks that need no state still run
+        let op' := match op.getLast? with
+          | some t => if t.startsWith "@" then op.dropLast else op
+          | none => op
+        match parseOp op' with
+        | some o =>
+          match parseObs o res with
+          | some obs => (st, match Monitors.stateless st.prop o obs with | some (t, d) => .monitorFail t (d ++ " [model stopped earlier in this case]") | none => .ok)
+          | none => (st, .ok)
+        | none => (st, .ok)
       | .live s =>
         -- optional last token `@L`: the link on whose behalf the signal is sent
         let behalf : Option Nat := match op.getLast? with
